@@ -214,6 +214,8 @@ func checkMain(args []string) int {
 	defer pool.stop()
 
 	inconclusive := []string{}
+	var budgetCases []Trace
+	var budgetNotes []string
 	var sums []*Summary
 	var allTraces []Trace
 	type cand struct {
@@ -259,7 +261,8 @@ func checkMain(args []string) int {
 			inconclusive = append(inconclusive, fmt.Sprintf("%s: %d engine errors (%s)", h.ID, sum.EngineErrs, strings.Join(sum.EngineMsgs, "; ")))
 		}
 		if sum.Budget > 0 {
-			inconclusive = append(inconclusive, fmt.Sprintf("%s: %d paths hit the step/depth budget (unwinding assertion)", h.ID, sum.Budget))
+			budgetCases = append(budgetCases, sum.BudgetCases...)
+			budgetNotes = append(budgetNotes, fmt.Sprintf("%s: %d paths hit the step/depth budget (unwinding assertion)", h.ID, sum.Budget))
 		}
 		if sum.PathLimitHit {
 			inconclusive = append(inconclusive, h.ID+": path limit hit")
@@ -314,6 +317,28 @@ func checkMain(args []string) int {
 		inconclusive = append(inconclusive, fmt.Sprintf("%d concretisations exceeded the value cap", st.St.CapHits))
 	}
 
+	// a path that exhausts the step budget is either a hang of the real code (a violation:
+	// replayed natively with a 20 s watchdog) or an unwinding bound that is too small (inconclusive)
+	hangs := []Trace{}
+	if len(budgetCases) > 0 {
+		if *noNative {
+			inconclusive = append(inconclusive, budgetNotes...)
+		} else if res, err := nativeRun(budgetCases); err != nil {
+			inconclusive = append(inconclusive, "native replay of budget hits failed: "+err.Error())
+		} else {
+			nh := 0
+			for i, r := range res {
+				fmt.Fprintf(os.Stderr, "budget case %s inputs=%v: native outcome %s %s\n", budgetCases[i].Harness, budgetCases[i].Inputs, r.Status, r.Label)
+				if r.Status == "hang" || r.Status == "crash" {
+					hangs = append(hangs, budgetCases[i])
+					nh++
+				}
+			}
+			if nh < len(budgetCases) {
+				inconclusive = append(inconclusive, budgetNotes...)
+			}
+		}
+	}
 	// native validation: sampled traces + every violation candidate
 	validated, mismatches := 0, []string{}
 	confirmed := []cand{}
@@ -393,6 +418,16 @@ func checkMain(args []string) int {
 			fmt.Fprintf(os.Stderr, "violation: %s %s %q inputs=%v %s\n", c.h, c.v.Kind, c.v.Label, c.v.Inputs, c.v.Msg)
 			fmt.Printf("VIOLATION property=%s replay=%s\n", id, path)
 		}
+		exit = 1
+	}
+	for i, hc := range hangs {
+		os.MkdirAll(filepath.Join(verifDir, "replays", id), 0755)
+		path := filepath.Join(verifDir, "replays", id, fmt.Sprintf("%s-hang-%d.json", strings.ReplaceAll(hc.Harness, ".", "_"), i))
+		js, _ := json.MarshalIndent(map[string]interface{}{"property": id, "harness": hc.Harness, "params": hc.Params, "model": hc.Model, "status": "hang", "kind": "hang", "label": hc.Label, "inputs": hc.Inputs}, "", " ")
+		os.WriteFile(path, js, 0644)
+		fmt.Fprintf(os.Stderr, "violation: %s does not terminate (engine step budget exhausted, native run exceeded the 20 s watchdog) inputs=%v %s\n", hc.Harness, hc.Inputs, hc.Label)
+		fmt.Printf("VIOLATION property=%s replay=%s\n", id, path)
+		nviol++
 		exit = 1
 	}
 	if id == "C20" && len(gwrites) > 0 {
